@@ -931,6 +931,25 @@ def pre_ops(rng, m, info):
         if len(m.subdomains[name]) >= 1:
             m = m.restrict(name)
             ops.append("restrict(name)")
+    elif r < 0.6 and type(m).__name__ in ("MeshTri1", "MeshTet1"):
+        # negatively oriented cells (first two local vertices swapped in some cells), connectivity tables built,
+        # THEN oriented(): the oriented copy must not keep tables of the cell order it no longer has
+        t2 = m.t.copy()
+        flip = [k for k in range(t2.shape[1]) if rng.random() < 0.5] or [0]
+        t2[[0, 1]] = np.where(np.isin(np.arange(t2.shape[1]), flip), t2[[1, 0]], t2[[0, 1]])
+        kw = {"_boundaries": m._boundaries, "_subdomains": m._subdomains}
+        mq = type(m)(m.p, t2, sort_t=False, **kw) if type(m).__name__ == "MeshTri1" else type(m)(m.p, t2, **kw)
+        mq.facets, mq.t2f, mq.f2t, mq.boundary_facets()
+        if mq.dim() == 3:
+            mq.edges, mq.t2e
+        try:
+            mq.param()
+        except Exception:
+            pass
+        m = mq.oriented()
+        ops.append("tables-then-oriented")
+        if type(m).__name__ == "MeshTri1":
+            info["sort_t"] = bool(m.sort_t)
     info["pre_ops"] = ops
     return m
 
